@@ -914,9 +914,20 @@ func (m *Machine) sliceOp(in *ssa.Slice, x, lo, hi, max Value) Value {
 }
 
 // checkIndex resolves a (possibly symbolic) index against a concrete length.
-func (m *Machine) checkIndex(idx BV, n int) int {
+// checkIndex: Go's index check; uns tells whether the index expression has an unsigned type
+// (a uint8 index of 0xC3 is 195, not -61).
+func (m *Machine) checkIndex(idx BV, n int, uns bool) int {
+	val := func(v uint64) int64 {
+		if uns {
+			if idx.W < 64 {
+				v &= (uint64(1) << idx.W) - 1
+			}
+			return int64(v)
+		}
+		return sext(v, uint16(idx.W))
+	}
 	if idx.T == nil {
-		i := idx.sval()
+		i := val(idx.C)
 		if i < 0 {
 			m.goPanicRuntime(fmt.Sprintf("index out of range [%d]", i))
 		}
@@ -925,28 +936,41 @@ func (m *Machine) checkIndex(idx BV, n int) int {
 		}
 		return int(i)
 	}
-	inb := m.fromTerm(m.tc.Cmp(OpUlt, idx.T, m.tc.Const(uint16(idx.W), uint64(n)))).(BoolV)
+	var inb BoolV
+	switch {
+	case idx.W >= 64:
+		inb = m.fromTerm(m.tc.Cmp(OpUlt, idx.T, m.tc.Const(64, uint64(n)))).(BoolV)
+	case uns:
+		inb = m.fromTerm(m.tc.Cmp(OpUlt, m.tc.Zext(idx.T, 64), m.tc.Const(64, uint64(n)))).(BoolV)
+	default:
+		inb = m.fromTerm(m.tc.Cmp(OpUlt, m.tc.Sext(idx.T, 64), m.tc.Const(64, uint64(n)))).(BoolV)
+	}
 	if !m.branch(inb, "index-bounds") {
 		v := m.concretize(idx, "index-oob")
-		if sext(v, uint16(idx.W)) < 0 {
-			m.goPanicRuntime(fmt.Sprintf("index out of range [%d]", sext(v, uint16(idx.W))))
+		if val(v) < 0 {
+			m.goPanicRuntime(fmt.Sprintf("index out of range [%d]", val(v)))
 		}
-		m.goPanicRuntime(fmt.Sprintf("index out of range [%d] with length %d", sext(v, uint16(idx.W)), n))
+		m.goPanicRuntime(fmt.Sprintf("index out of range [%d] with length %d", val(v), n))
 	}
 	return int(m.concretize(idx, "index"))
+}
+
+func isUnsignedType(t types.Type) bool {
+	b, ok := t.Underlying().(*types.Basic)
+	return ok && b.Info()&types.IsUnsigned != 0
 }
 
 func (m *Machine) indexAddr(in *ssa.IndexAddr, x Value, idx BV) Value {
 	switch xv := x.(type) {
 	case Slice:
-		i := m.checkIndex(idx, xv.len)
+		i := m.checkIndex(idx, xv.len, isUnsignedType(in.Index.Type()))
 		return Ptr{xv.o, xv.off + i*xv.es}
 	case Ptr:
 		at := in.X.Type().Underlying().(*types.Pointer).Elem().Underlying().(*types.Array)
 		if xv.o == nil {
 			m.goPanicRuntime("invalid memory address or nil pointer dereference")
 		}
-		i := m.checkIndex(idx, int(at.Len()))
+		i := m.checkIndex(idx, int(at.Len()), isUnsignedType(in.Index.Type()))
 		return Ptr{xv.o, xv.off + i*m.sizeOf(at.Elem())}
 	}
 	panic(fmt.Sprintf("indexAddr on %T", x))
@@ -957,13 +981,13 @@ func (m *Machine) indexOp(in *ssa.Index, x Value, idx BV) Value {
 	case Tuple:
 		at := in.X.Type().Underlying().(*types.Array)
 		es := m.sizeOf(at.Elem())
-		i := m.checkIndex(idx, int(at.Len()))
+		i := m.checkIndex(idx, int(at.Len()), isUnsignedType(in.Index.Type()))
 		if isAggregate(at.Elem()) {
 			return Tuple(append([]Value(nil), xv[i*es:(i+1)*es]...))
 		}
 		return xv[i*es]
 	case Str:
-		i := m.checkIndex(idx, len(xv.S))
+		i := m.checkIndex(idx, len(xv.S), isUnsignedType(in.Index.Type()))
 		return xv.byteAt(i)
 	}
 	panic(fmt.Sprintf("indexOp on %T", x))
@@ -971,7 +995,7 @@ func (m *Machine) indexOp(in *ssa.Index, x Value, idx BV) Value {
 
 func (m *Machine) lookup(in *ssa.Lookup, x, k Value) Value {
 	if s, ok := x.(Str); ok {
-		i := m.checkIndex(k.(BV), len(s.S))
+		i := m.checkIndex(k.(BV), len(s.S), isUnsignedType(in.Index.Type()))
 		return s.byteAt(i)
 	}
 	mp, _ := x.(*MapObj)
